@@ -84,6 +84,21 @@ EditsOf(cls) == {e \in AllEdits : e.op \in Ops(cls) /\ (e.op \in {"action", "act
 EditsTab == TLCEval([cls \in Classes |-> EditsOf(cls)])
 Edits(cls) == EditsTab[cls]
 
+\* one representative per acceptance rule / content field
+SmallEdits(k) ==
+   {e \in Edits(k) :
+      \/ e.op = "fluent" /\ e.k \in {"none", "t"}
+      \/ e.op \in {"object", "action"}
+      \/ e.op = "goal" /\ e.a \in {"g1", "gtrue"}
+      \/ e.op \in {"teff", "acteff"} /\ e.t # "e" /\
+            \/ e.f = "x" /\ e.k = "asg" /\ (~e.c \/ e.v = 1)
+            \/ e.f = "x" /\ e.k = "inc" /\ ~e.c
+            \/ e.f = "b" /\ e.k = "asg" /\ e.v = 1 /\ ~e.c
+      \/ e.op = "tgoal" /\ e.a = "g1" /\ e.t \in {"p5", "bad"}
+      \/ e.op = "traj" /\ e.a \in {"tr1", "bad"}
+      \/ e.op = "metric" /\ e.a \in {"minx", "cost"}
+      \/ e.op = "init" /\ <<e.f, e.v>> \in {<<"x", 1>>, <<"b", 2>>, <<"n", 1>>}}
+
 \* the container an edit touches (used by the generator to emit interacting histories)
 Locus(e) == CASE e.op \in {"fluent", "object"} -> "name:" \o e.a
               [] e.op = "action" \/ e.op = "acteff" -> "act:" \o e.a
@@ -105,6 +120,13 @@ Empty(idef, tm) ==
 Content(p) == [f \in {ContentFields[i] : i \in DOMAIN ContentFields} |-> p[f]]
 \* the fields on which two records differ, in a fixed order
 Diff(p, q) == SelectSeq(ContentFields, LAMBDA f : p[f] # q[f])
+\* the same with the kind of difference (want w, got g): lost / extra / changed
+DiffK(w, g) ==
+   LET d == Diff(w, g)
+       kind(f) == IF f \in {"idef", "tm"} THEN "changed"
+                  ELSE IF g[f] \subseteq w[f] THEN "lost"
+                  ELSE IF w[f] \subseteq g[f] THEN "extra" ELSE "changed"
+   IN [i \in DOMAIN d |-> d[i] \o ":" \o kind(d[i])]
 
 EffOf(e) == [t |-> e.t, f |-> e.f, k |-> e.k, v |-> e.v, c |-> e.c]
 AEffOf(e) == [a |-> e.a, t |-> e.t, f |-> e.f, k |-> e.k, v |-> e.v, c |-> e.c]
